@@ -90,7 +90,7 @@ func newRect(node *cascadedNode, _ *svgContext) (drawable, error) {
 	if err != nil {
 		return nil, err
 	}
-	out.ry, err = parseValue(rx_)
+	out.ry, err = parseValue(ry_)
 	if err != nil {
 		return nil, err
 	}
